@@ -80,6 +80,9 @@ def replay(case, stats):
     if case["sub"] in ("text", "rawtext"):
         from . import textdocs
         return textdocs.check_text(case, stats, "C08")
+    if case["sub"] == "shared-compiler":
+        from . import c07
+        return c07.check_shared_compiler(case, stats)
     if case["sub"] == "reuse":
         return pc.check_reuse(case, stats, proj_c08, WHAT)
     return check_ast(case, stats)
@@ -90,6 +93,8 @@ def run(ctx):
     q = ctx.quick
     ctx.units("golden", unit_golden, [{}])
     ctx.units("ast-hypothesis", unit_ast, [{"n": 1500 if q else 20000, "seed": ctx.seed, "shard": i} for i in range(8 if q else 16)], procs=16)
+    from . import c07
+    ctx.units("shared-compiler-threads", c07.unit_shared, [{"reps": 10 if q else 100}])
     ctx.units("compiler-reuse", unit_reuse, [{"n": 450 if q else 4000, "seed": ctx.seed, "shard": i} for i in range(8 if q else 16)], procs=16)
     from . import textdocs
     textdocs.run_text(ctx, "C08")
